@@ -45,3 +45,5 @@ def run_all():
         rule_table.generate()
     except ImportError:
         pass
+    from translate import grammar_balance
+    grammar_balance.generate()
